@@ -464,8 +464,11 @@ class BuildError(Exception):
     pass
 
 
-def run_impl(engine, cases, pid, debug_assertions=False, timeout=1800, extra_env=None, parallel=1, mem_limit_kb=4 * 1024 * 1024):
-    """Run the harness engine over JSON cases; returns list of JSON results."""
+def run_impl(engine, cases, pid, debug_assertions=False, timeout=1800, extra_env=None, parallel=1, mem_limit_kb=4 * 1024 * 1024, case_timeout=None):
+    """Run the harness engine over JSON cases; returns list of JSON results.
+    case_timeout: seconds after which the harness's watchdog reports a single case as hanging (default 30)."""
+    if case_timeout is not None:
+        extra_env = dict(extra_env or {}, IMPL_CASE_TIMEOUT_S=str(case_timeout))
     exe = build_harness(debug_assertions)
     sc = scratch("impl_%s_%s" % (pid, engine))
     if parallel <= 1 or len(cases) < 64:
